@@ -29,10 +29,12 @@ STATE_FIELDS = ["time", "qpos", "qvel", "act", "history", "qacc_warmstart", "ctr
 
 XML = """<mujoco><option integrator="{integ}"><flag {flag}/></option><size nuserdata="2"/><worldbody><geom type="plane" size="5 5 .1"/>
 <body pos="0 0 .09"><freejoint/><geom size=".1"/></body>
-<body name="b" pos="1 0 1"><joint name="j" damping="0.1" limited="true" range="-1 1"/><geom size=".1"/></body>
-<body name="mc" pos="2 0 0" mocap="true"><geom size=".05" contype="0" conaffinity="0"/></body></worldbody>
-<equality><weld body1="b" body2="mc" active="true"/></equality>
-<actuator><general name="a0" joint="j" dyntype="integrator" {adelay}/></actuator>
+<body name="b" pos="1 0 1"><joint name="j" axis="0 1 0" damping="0.1" limited="true" range="-1 1"/><geom size=".1" pos=".2 0 0"/>
+ <body pos=".4 0 0"><joint name="j2" axis="0 1 0" damping="0.05"/><geom size=".08" pos=".2 0 0"/></body></body>
+<body name="f" pos="2 0 1"><freejoint/><geom size=".1" contype="0" conaffinity="0"/></body>
+<body name="mc" pos="2 0 1" mocap="true"><geom size=".05" contype="0" conaffinity="0"/></body></worldbody>
+<equality><weld body1="f" body2="mc" active="true"/></equality>
+<actuator><general name="a0" joint="j" dyntype="integrator" {adelay}/><motor name="a1" joint="j2" gear="2"/></actuator>
 <sensor><jointpos joint="j" {sdelay}/><jointvel joint="j"/><actuatorfrc actuator="a0"/></sensor></mujoco>"""
 
 XML_SLEEP = """<mujoco><option integrator="{integ}"><flag sleep="enable"/></option><worldbody><geom type="plane" size="5 5 .1"/>
@@ -136,18 +138,18 @@ def native_compose(integ, sleep):
   ma, mb = copy.copy(mjd), copy.copy(mjd)
   if not sleep:  # the user sets a new state and control before stepping: every derived quantity in Data is stale
     qv = rng.uniform(-1, 1, size=mjm.nv)
-    hinge = 0.4
+    hinge = [0.4, -0.7]
     for dd in (da, db):
       v = dd.qvel.numpy()
       v[0, :] = qv
       dd.qvel = wp.array(v, dtype=float)
       q = dd.qpos.numpy()
-      q[0, 7] = hinge
+      q[0, 7:9] = hinge
       dd.qpos = wp.array(q, dtype=float)
       dd.ctrl.fill_(-3.0)
     for mm in (ma, mb):
       mm.qvel[:] = qv
-      mm.qpos[7] = hinge
+      mm.qpos[7:9] = hinge
       mm.ctrl[:] = -3.0
   if sleep:  # user input: push the first (sleeping) sphere upwards
     for dd in (da, db):
@@ -164,7 +166,7 @@ def native_compose(integ, sleep):
   mujoco.mj_step2(mjm, mb)
   out = {}
   same = True
-  for f in ("qpos", "qvel", "act", "time", "history", "qacc_warmstart", "sensordata", "energy", "qacc", "actuator_force"):
+  for f in ("qpos", "qvel", "act", "time", "history", "qacc_warmstart", "sensordata", "energy", "qacc", "actuator_force", "qacc_smooth", "qfrc_smooth", "qfrc_constraint"):
     a, b = getattr(da, f).numpy()[0], getattr(db, f).numpy()[0]
     ok = bool(np.allclose(a, b, rtol=1e-4, atol=1e-6))
     same = same and ok
@@ -278,7 +280,7 @@ def unit_compose(integ, sleep=False):
     a = trace(lambda m, d: mjw.step(m, d), xml)
     b = trace(lambda m, d: (mjw.step1(m, d), mjw.step2(m, d)), xml)
     ctx.encode(mjw.step, mjw.step1, mjw.step2)
-    ctx.bound(integrator=integ, sleep=sleep, nworld=2, model="free sphere on plane + limited hinge welded to a mocap body, delayed integrator actuator, delayed sensor" if not sleep else "two free spheres, sleep enabled")
+    ctx.bound(integrator=integ, sleep=sleep, nworld=2, model="free sphere on plane, 2-link arm with a joint limit, free body welded to a mocap body, delayed integrator actuator, delayed sensor" if not sleep else "two free spheres, sleep enabled")
     ctx.assume("the host control flow depends only on Model / option fields (the traces are taken on one tiny model per configuration)", "factor_m ; solve_m == factor_solve_i on the same M, rhs (lemma of C21)")
     sess = ctx.session([])
     ctx.reach(sess, "twin:traced", z3.BoolVal(len(a.launches) > 10 and len(b.launches) > 10))
@@ -405,8 +407,8 @@ def native_forward(delay, field):
 
   mjm = mujoco.MjModel.from_xml_string(xml_for("Euler", delay))
   mjd = mujoco.MjData(mjm)
-  mjd.ctrl[:] = 0.5
-  for _ in range(3):
+  for k in range(4):
+    mjd.ctrl[:] = 0.5 + 0.3 * k
     mujoco.mj_step(mjm, mjd)
   m = mjw.put_model(mjm)
   d = mjw.put_data(mjm, mjd)
@@ -425,7 +427,7 @@ def forward_replay(ctx, delay, field):
     os.makedirs(os.path.join(report.VERIF, "replays", PID), exist_ok=True)
     path = os.path.join(report.VERIF, "replays", PID, f"{ctx.unit.replace('/', '_')}.{field}.json")
     with open(path, "w") as f:
-      json.dump({"property": PID, "xml": xml_for("Euler", delay), "field": field, "how": "3 mj_step with ctrl 0.5, put_data, mjw.forward(m, d) vs mujoco.mj_forward: the integration-state field before / after", "result": out, "changed by mjwarp forward": changed}, f, indent=1)
+      json.dump({"property": PID, "xml": xml_for("Euler", delay), "field": field, "how": "4 mj_step with ctrl 0.5 + 0.3 k, put_data, mjw.forward(m, d) vs mujoco.mj_forward: the integration-state field before / after", "result": out, "changed by mjwarp forward": changed}, f, indent=1)
     return changed, path
 
   return _rp
